@@ -72,8 +72,14 @@ J_instance(e) == LET i == NativeInst(e.a.w, e.a.off) IN
 
 \* ---- C02 -----------------------------------------------------------------------------
 CreateLabel(zr, w, f, strict) == <<(IF zr.n = "naive" THEN "unique" ELSE Classify(Z(zr), WDS(w))), B(f = 1), B(strict)>>
-J_create(e) == R(<<e.a.entry>> \o CreateLabel(e.a.tz, e.a.w, e.a.f, e.a.strict),
-                 CmpOut(e.post, Create(e.a.tz, e.a.w, e.a.f, e.a.strict), e.a.cls))
+\* entry points without a fold / strict parameter use the documented defaults (fold = 1, lenient)
+DefaultOnly == {"tz_datetime", "local", "parse_tz"}
+\* Timezone.convert() of a NATIVE naive datetime returns a native datetime, everything else a DateTime
+EntryClass(en) == IF en \in {"tz_convert", "tz_datetime"} THEN "datetime" ELSE "DateTime"
+J_create(e) == LET f == IF e.a.entry \in DefaultOnly THEN 1 ELSE e.a.f
+                   st == IF e.a.entry \in DefaultOnly THEN FALSE ELSE e.a.strict
+               IN R(<<e.a.entry>> \o CreateLabel(e.a.tz, e.a.w, f, st),
+                    CmpOut(e.post, Create(e.a.tz, e.a.w, f, st), EntryClass(e.a.entry)))
 J_set(e) == LET s == Src(e) x == SetFields(s, e.a.o) m == Merge(s.w, e.a.o) IN
    R(<<e.a.entry>> \o CreateLabel(s.z, m, s.f, FALSE), CmpOut(e.post, x, "DateTime"))
 J_replace(e) == LET s == Src(e) x == ReplaceFields(s, e.a.o, e.a.f) m == Merge(s.w, e.a.o) IN
